@@ -70,3 +70,13 @@ Definition qop (op : fop) (x y : Q) : Q :=
 Definition op_value (op : fop) (A : Z) (fa : bool) (B : Z) (fb : bool) : Z :=
   exact (fst (elab_op op (EConst A, fa) (EConst B, fb))).
 Definition op_fixed (op : fop) (fa fb : bool) : bool := snd (elab_op op (EConst 0, fa) (EConst 0, fb)).
+
+(* ---------------- comparisons (ebpf.py comparison()) ---------------- *)
+From Verif Require Export Gen.Cond.
+Definition cmp_fixed (op : cmpop) (a b : fexpr) : bool :=
+  let '(ea, fa) := elab a in let '(eb, fb) := elab b in
+  if Bool.eqb fa fb then cmp_impl op ea eb
+  else if fa then cmp_impl op ea (scale eb FB) else cmp_impl op (scale ea FB) eb.
+(* the two integers that are compared, for operand values A, B *)
+Definition cmp_scaled (fa fb : bool) (A B : Z) : Z * Z :=
+  if Bool.eqb fa fb then (A, B) else if fa then (A, B * FB) else (A * FB, B).
